@@ -557,21 +557,36 @@ SEP = '\x01'
 
 def apply_splices(body, splices, fired, what):
     """splices: list of (anchor, mode, text); mode in after|before|replace. anchor must occur exactly once."""
-    for (anchor, mode, txt) in splices:
+    for sp in splices:
+        (anchor, mode, txt) = sp[0], sp[1], sp[2]
+        within = sp[3] if len(sp) > 3 else None      # unique locator text that starts with the (ambiguous) anchor
         if anchor == '^':       # function entry: right after the opening brace of the body
             if not body.startswith('{'):
                 raise ExtractError('ANCHOR-LOST in %s: body does not start with {' % what)
             body = '{' + SEP + txt.replace('\n', SEP) + SEP + body[1:]
             fired.append('R8 splice at function entry')
             continue
-        cnt = body.count(anchor)
+        if within is not None:
+            if body.count(within) != 1 or not within.startswith(anchor):
+                raise ExtractError('ANCHOR-LOST in %s: locator %r occurs %d times' % (what, within, body.count(within)))
+            mark = '\x02'
+            body = body.replace(within, mark + within[len(anchor):], 1)
+            anchor_eff = mark
+        else:
+            anchor_eff = anchor
+        cnt = body.count(anchor_eff)
+        if within is not None:
+            body = body.replace(mark, anchor, 1)
+            pos_override = body.index(within)
+        else:
+            pos_override = None
         if cnt != 1:
             raise ExtractError('ANCHOR-LOST in %s: %r occurs %d times' % (what, anchor, cnt))
         ghost = txt.replace('\n', SEP)
         if mode == 'closure':
             # anchor = the closure's parameter list as written (`|e|`); txt = annotated header
             # (`|e: T| -> (q: R) ensures ..`).  A non-block body is wrapped in braces (same expression).
-            pos = body.index(anchor)
+            pos = pos_override if pos_override is not None else body.index(anchor)
             msk = mask(body)
             k = pos + len(anchor)
             while msk[k] in ' \t\n':
